@@ -1,6 +1,6 @@
 (* Dispatch of driver requests to the per-property executable models. *)
 From Coq Require Import List String.
-From PC Require Import Base.Sexp Run.RC11 Run.RC07 Run.RComp Run.RC08 Run.RDesign.
+From PC Require Import Base.Sexp Run.RC11 Run.RC07 Run.RComp Run.RC08 Run.RDesign Run.RC13.
 Import ListNotations.
 Local Open Scope string_scope.
 
@@ -14,6 +14,7 @@ Definition run (req : sexp) : sexp :=
   | Li [At "design"; x] => run_design x
   | Li [At "contract"; x] => run_contract x
   | Li [At "files"; x] => run_files x
+  | Li [At "C13"; x] => run_C13 x
   | Li [At "C08"; x] => run_C08 x
   | _ => bad_request
   end.
